@@ -1101,7 +1101,7 @@ lydxml_subtree_r(struct lyd_xml_ctx *lydctx, struct lyd_node *parent, struct lyd
         assert(snode->nodetype & LYD_NODE_ANY);
         r = lydxml_subtree_any(lydctx, snode, ext, &node);
     }
-    LY_DPARSER_ERR_GOTO(r, rc = r, lydctx, cleanup);
+    LY_DPARSER_ERR_GOTO(r, rc = r, lydctx, error);
 
 node_parsed:
     if (node && snode) {
@@ -1112,7 +1112,7 @@ node_parsed:
         if (!(lydctx->parse_opts & LYD_PARSE_ONLY)) {
             /* store for ext instance node validation, if needed */
             r = lyd_validate_node_ext(node, &lydctx->ext_node);
-            LY_DPARSER_ERR_GOTO(r, rc = r, lydctx, cleanup);
+            LY_DPARSER_ERR_GOTO(r, rc = r, lydctx, error);
         }
     }
 
@@ -1152,6 +1152,11 @@ node_parsed:
     if (parsed) {
         ly_set_add(parsed, node, 1, NULL);
     }
+    goto cleanup;
+
+error:
+    /* the node may have been kept (LYD_VALIDATE_MULTI_ERROR) but is not going to be inserted */
+    lyd_free_tree(node);
 
 cleanup:
     lydctx->parse_opts = orig_parse_opts;
